@@ -109,6 +109,16 @@ CHECKS['C16'] = dict(
     note='Not decided: the B+tree\'s own behaviour (C17), spill thresholds, swallowed I/O errors in the disk arm.',
     design='§4 C16')
 
+CHECKS['C18'] = dict(
+    technique='writer/reader table agreement (T8): tag bijection, per-variant primitive sequences, abstract evaluation of the reader\'s string decision list on every text the writer can emit, field-consumption of persisted structs',
+    text='Decides at the level of kinds, hence for all schemas and values: TypeTag ↔ from_u8 bijection; per SqlValue variant the tag and '
+         'primitive sequence written = read and the same variant is rebuilt; for every DataType variant each text the binary/JSON writer '
+         'can emit (literals and format templates decoded from the compiled fmt::Arguments) is mapped by the reader\'s ordered '
+         'equality/starts_with tests to the same variant, and the writer consumes every field; the catalog writers read every field of the '
+         'persisted index definition and the readers do not substitute constants; section order of save mirrors load.',
+    note='Not decided: equality of values after Display/FromStr (C22), query results after reload, constraints (not in the property text).',
+    design='§4 C18')
+
 NOT_APPLICABLE = {
     'C01': 'Equality of result multisets with a reference engine is a value-level semantic equivalence over all queries and data; no structural necessary condition beyond those claimed under C06/C21/C24 exists and a static rule cannot stand in for an oracle.',
     'C03': 'Columnar-vs-row agreement is determined by computed values (empty input, NULL handling, sums); a rejected shape falls back safely, so no table-agreement obligation exists whose breach necessarily changes results.',
